@@ -16,6 +16,7 @@ import (
 
 	"github.com/couchbase/nitro"
 	"nvharness/internal/guardalloc"
+	"nvharness/internal/sched"
 )
 
 // backup operations of engine mvcc (PROTOCOL.md "engine backup")
@@ -174,6 +175,7 @@ func (e *mvccEngine) backupOp(toks []string) string {
 			return "bad-op"
 		}
 	}
+	churnAt, _ := argOf(toks, "churnat")
 	switch toks[0] {
 	case "manifest":
 		if len(toks) != 3 {
@@ -216,7 +218,7 @@ func (e *mvccEngine) backupOp(toks []string) string {
 		}
 		e.bkdir = freshDir()
 		e.refs[i]--
-		cb, finish := e.churnCallback(churn, hasChurn)
+		cb, finish := e.churnCallback(churn, hasChurn, churnAt == "gc")
 		err := e.db.StoreToDisk(e.bkdir, s, conc, cb)
 		finish()
 		if err != nil {
@@ -341,7 +343,7 @@ func (e *mvccEngine) backupOp(toks []string) string {
 				prev(point, obj)
 			}
 		}
-		cb, finish := e.churnCallback(churn, hasChurn)
+		cb, finish := e.churnCallback(churn, hasChurn, churnAt == "gc")
 		err := e.db.StoreToDisk(dir, s, conc, cb)
 		finish()
 		nitro.VerifHook = prev
@@ -361,7 +363,7 @@ func (e *mvccEngine) backupOp(toks []string) string {
 // churnCallback mutates the instance while a backup is running (on the first item callback): deletes keys
 // through writer 0, cuts a snapshot, releases it and lets the collector run. finish() performs the churn after
 // the store if no callback was made (empty snapshot), so that the script's effect is the same either way.
-func (e *mvccEngine) churnCallback(churn []int, has bool) (nitro.ItemCallback, func()) {
+func (e *mvccEngine) churnCallback(churn []int, has bool, atGC bool) (nitro.ItemCallback, func()) {
 	if !has {
 		return nil, func() {}
 	}
@@ -376,9 +378,36 @@ func (e *mvccEngine) churnCallback(churn []int, has bool) (nitro.ItemCallback, f
 		cs.Close()
 		e.gcQuiesce()
 	}
-	var once sync.Once
-	cb := func(*nitro.ItemEntry) { once.Do(func() { churned = true; doChurn() }) }
+	var mu sync.Mutex
+	fire := func() {
+		// not sync.Once: the churn itself closes a snapshot and so re-enters the hook that fires it
+		mu.Lock()
+		first := !churned
+		churned = true
+		mu.Unlock()
+		if first {
+			doChurn()
+		}
+	}
+	cb := func(*nitro.ItemEntry) { fire() }
+	restore := func() {}
+	if atGC {
+		// churn at the moment the backup releases the stored snapshot (first GC re-check on the storing
+		// goroutine): in delta mode the collection workers must already be logging by then
+		me := sched.Goid()
+		prev := nitro.VerifHook
+		nitro.VerifHook = func(point int, obj unsafe.Pointer) {
+			if prev != nil {
+				prev(point, obj)
+			}
+			if nitroPoint[point] == "GC_RECHECK" && sched.Goid() == me {
+				fire()
+			}
+		}
+		restore = func() { nitro.VerifHook = prev }
+	}
 	return cb, func() {
+		restore()
 		if !churned {
 			doChurn()
 		}
